@@ -890,7 +890,14 @@ fn relay<T: Borrow<[u8]>>(m: &Message<T>, bytes: &[u8], opts: Opts, obs: &mut Ob
                 let s2 = from_crate_msg(&m2);
                 let mut w = VecWriter::new();
                 m2.write(&mut w);
-                Ok((s2, w.data, r.len()))
+                // the library's own equality on the AVP lists (it sees
+                // private fields that the specification-level view, taken
+                // through the encoder, cannot)
+                let same_avps = match (m, &m2) {
+                    (Message::Control(a), Message::Control(b)) => a.avps == b.avps,
+                    _ => true,
+                };
+                Ok((s2, w.data, r.len(), same_avps))
             }
             Err(e) => Err(errs_text(&e)),
         }
@@ -903,7 +910,7 @@ fn relay<T: Borrow<[u8]>>(m: &Message<T>, bytes: &[u8], opts: Opts, obs: &mut Ob
             format!("input {} -> encode(m) = {}: second round fails: {}", hexcut(bytes), hexcut(&e1), c.text()),
         )
     })?;
-    let (m2, e2, _rem) = r2.map_err(|e| {
+    let (m2, e2, _rem, same_avps) = r2.map_err(|e| {
         Failure::new(
             "C10",
             "reencoded-decodes-strictly",
@@ -932,6 +939,18 @@ fn relay<T: Borrow<[u8]>>(m: &Message<T>, bytes: &[u8], opts: Opts, obs: &mut Ob
                 hexcut(bytes),
                 serde_json::to_string(&want).unwrap_or_default(),
                 serde_json::to_string(&m2).unwrap_or_default()
+            ),
+        ));
+    }
+    if !same_avps {
+        return Err(Failure::new(
+            "C10",
+            "second-value-equals-first",
+            &format!("{}:library-equality", cls),
+            format!(
+                "input {}: the AVP list decoded from encode(m) is not equal (PartialEq) to m's, although both look like {} through the encoder",
+                hexcut(bytes),
+                serde_json::to_string(&want).unwrap_or_default()
             ),
         ));
     }
